@@ -305,27 +305,41 @@ def fault_case(encrypted, caller, owners, refs, orphans, op, fop, exc_i):
     return True, '', True
 
 
+def _g_fault(ci, oc, bits, opi, fi, ei):
+    owners = [OWNERS[oc % 3], OWNERS[oc // 3]]
+    refs = _refs_from_bits(bits, 2, 2)
+    op = ['clean', 'del0', 'del01'][opi]
+    caller = 'AB'[ci]
+    # the caller only names snapshots it owns (refusals are the subject of G.e)
+    if op != 'clean':
+        owners[0] = caller
+        if op == 'del01':
+            owners[1] = caller
+    ok, msg, hit = fault_case(True, caller, owners, refs, [(0, 3)], op, FAULT_OPS[fi], ei)
+    tick('g_fault', [caller, owners, refs, op, fi, ei, hit])
+    if not ok:
+        _say(msg)
+    return ok
+
+
 def g_fault(k: int) -> bool:
+    """Quick tier: the error type rotates with the other digits (every type meets every failing call and command).
+    pre: shard(2 * 9 * 16 * 3 * 6)[0] <= k < shard(2 * 9 * 16 * 3 * 6)[1]
+    post: _
+    """
+    ci, oc, bits, opi, fi = digits(k, [2, 9, 16, 3, 6])
+    with NoTracing():
+        return _g_fault(ci, oc, bits, opi, fi, (fi + opi + bits + oc) % 4)
+
+
+def g_fault_full(k: int) -> bool:
     """
     pre: shard(2 * 9 * 16 * 3 * 6 * 4)[0] <= k < shard(2 * 9 * 16 * 3 * 6 * 4)[1]
     post: _
     """
     ci, oc, bits, opi, fi, ei = digits(k, [2, 9, 16, 3, 6, 4])
     with NoTracing():
-        owners = [OWNERS[oc % 3], OWNERS[oc // 3]]
-        refs = _refs_from_bits(bits, 2, 2)
-        op = ['clean', 'del0', 'del01'][opi]
-        caller = 'AB'[ci]
-        # the caller only names snapshots it owns (refusals are the subject of G.e)
-        if op != 'clean':
-            owners[0] = caller
-            if op == 'del01':
-                owners[1] = caller
-        ok, msg, hit = fault_case(True, caller, owners, refs, [(0, 3)], op, FAULT_OPS[fi], ei)
-        tick('g_fault', [caller, owners, refs, op, fi, ei, hit])
-        if not ok:
-            _say(msg)
-        return ok
+        return _g_fault(ci, oc, bits, opi, fi, ei)
 
 
 def _refs_from_bits(bits, nsnap, ndig):
